@@ -11,6 +11,7 @@ import (
 	"regexp"
 	"runtime"
 	"sort"
+	"strconv"
 	"strings"
 	"sync"
 	"sync/atomic"
@@ -1297,6 +1298,32 @@ func setup(t *testing.T) *vk.Run {
 		}
 		return f
 	})
+	r.Replayer("gofuzz", func(raw json.RawMessage) *vk.Fail {
+		var c struct {
+			CorpusFile string `json:"corpus_file"`
+		}
+		if f := vk.Decode(raw, &c); f != nil {
+			return f
+		}
+		for _, l := range strings.Split(c.CorpusFile, "\n") {
+			l = strings.TrimSpace(l)
+			if strings.HasPrefix(l, "[]byte(") && strings.HasSuffix(l, ")") {
+				src, err := strconv.Unquote(l[len("[]byte(") : len(l)-1])
+				if err != nil {
+					return &vk.Fail{Kind: "decode", Msg: err.Error()}
+				}
+				if len(src) > 512 {
+					src = src[:512]
+				}
+				res := vk.Safe(func() (string, error) { return plush.Render(src, plush.NewContextWith(fuzzData())) })
+				if res.Panicked() && !res.Budget {
+					return &vk.Fail{Kind: "gofuzz", Case: c, Msg: fmt.Sprintf("template %q with the whole pool bound: %s", src, res)}
+				}
+				return nil
+			}
+		}
+		return &vk.Fail{Kind: "decode", Msg: "no value in fuzz corpus file"}
+	})
 	helpersForRandom = helperNames()
 	idents = nil
 	for _, p := range pool {
@@ -1444,4 +1471,70 @@ func report(r *vk.Run) {
 		}
 	}
 	parseMu.Unlock()
+}
+
+// ---- native fuzzing of the evaluator (thorough tier only) ---------------------------------------------------
+//
+// FuzzRender: bytes -> template text, rendered with the WHOLE pool bound under
+// its names. The oracle is the property's: output or error, never a panic.
+// Excluded by construction, because they are non-terminating user programs and
+// not engine faults: template-defined functions (unbounded recursion), the
+// contentOf helper (a stored block can contain its own contentOf) and long
+// iterator loops (range/between/until are capped at 64 steps here).
+
+type cappedIter struct{ cur, end, left int }
+
+func (c *cappedIter) Next() interface{} {
+	if c.cur > c.end || c.left <= 0 {
+		return nil
+	}
+	c.left--
+	c.cur++
+	return c.cur - 1
+}
+
+func fuzzData() map[string]interface{} {
+	data := map[string]interface{}{}
+	for _, p := range pool {
+		if p.Mk != nil {
+			data[p.Name] = p.Mk()
+		}
+	}
+	data["range"] = func(a, b int) plush.Iterator { return &cappedIter{cur: a, end: b, left: 64} }
+	data["between"] = func(a, b int) plush.Iterator { return &cappedIter{cur: a + 1, end: b - 1, left: 64} }
+	data["until"] = func(a int) plush.Iterator { return &cappedIter{cur: 0, end: a - 1, left: 64} }
+	data["contentOf"] = func(name string) string { return "" }
+	return data
+}
+
+var fnWord = regexp.MustCompile(`\b(fn|func)\b`)
+
+func FuzzRender(f *testing.F) {
+	r := &vk.Run{}
+	b := &builder{r: r}
+	_ = b
+	seeds := 0
+	for _, m := range []func(*vk.Run, *builder){matrixOps, matrixIndex, matrixMember, matrixFor, matrixCall, matrixStmt} {
+		bb := &builder{r: &vk.Run{Shards: 1}}
+		m(bb.r, bb)
+		for i, c := range bb.cells {
+			if i%997 == 0 && !fnWord.MatchString(string(c.c.Tmpl)) {
+				f.Add([]byte(c.c.Tmpl))
+				seeds++
+			}
+		}
+	}
+	f.Fuzz(func(t *testing.T, in []byte) {
+		if len(in) > 512 {
+			in = in[:512]
+		}
+		src := string(in)
+		if fnWord.MatchString(src) {
+			t.Skip()
+		}
+		res := vk.Safe(func() (string, error) { return plush.Render(src, plush.NewContextWith(fuzzData())) })
+		if res.Panicked() && !res.Budget {
+			t.Fatalf("template %q: %s\n%s", src, res, res.Stack)
+		}
+	})
 }
